@@ -120,7 +120,12 @@ async fn run_scen(a: &Args, m: &mut mon::Mon) {
                     // hostile oracle conditions around valuation-consuming instructions
                     scen::oracle_faults(&mut w, m, &mut r, &lev, lq, g).await
                 }
-                "C07" => scen::bankruptcy(&mut w, m, &mut r, &lev, g).await,
+                "C07" => {
+                    scen::bankruptcy(&mut w, m, &mut r, &lev, g).await;
+                    if r.gen_bool(0.15) {
+                        scen::wipeout(&mut w, m, &mut r, g, lq).await;
+                    }
+                }
                 "C10" => {
                     let ru = w.accts[lq].user;
                     scen::receivership(&mut w, m, &mut r, &lev, ru).await
